@@ -397,6 +397,16 @@ func init() {
 	harnessAPI["vFrozenWrites"] = func(fr *frame, args []value) value {
 		return len(fr.i.freezeHits)
 	}
+	harnessAPI["vInstrBound"] = func(fr *frame, args []value) value {
+		n := fr.i.concInt(fr, args[0])
+		fr.i.path.instrBudget = int64(n)
+		if n <= 0 {
+			fr.i.path.instrBound = 0
+		} else {
+			fr.i.path.instrBound = fr.i.ninstr + int64(n)
+		}
+		return nil
+	}
 	harnessAPI["vDepthBound"] = func(fr *frame, args []value) value {
 		fr.i.path.depthBound = int(fr.i.concInt(fr, args[0]))
 		return nil
